@@ -41,7 +41,12 @@ def main():
         tmp = tempfile.mkdtemp(prefix="seeded-")
         try:
             os.makedirs(os.path.join(tmp, "repo"))
-            shutil.copytree("/repo/src", os.path.join(tmp, "repo", "src"), ignore=shutil.ignore_patterns("__pycache__", "*.egg-info"))
+            if meta.get("base_commit"):
+                # a change written against an earlier commit and neutralised by a later repair: judged on the tree it was written for
+                ar = subprocess.run(["git", "-C", "/repo", "archive", meta["base_commit"], "src"], capture_output=True, check=True)
+                subprocess.run(["tar", "-x", "-C", os.path.join(tmp, "repo")], input=ar.stdout, check=True)
+            else:
+                shutil.copytree("/repo/src", os.path.join(tmp, "repo", "src"), ignore=shutil.ignore_patterns("__pycache__", "*.egg-info"))
             r = subprocess.run(["patch", "-p1", "-s", "-d", os.path.join(tmp, "repo"), "-i", os.path.join(d, "patch.diff")], capture_output=True, text=True)
             if r.returncode != 0:
                 rows.append((sid, meta["property"], "-", "PATCH DOES NOT APPLY", r.stdout[-200:]))
